@@ -349,6 +349,169 @@ class ParseTruncation:
             yield "ensures.result_is_script", isinstance(out.value, Ref) and c.deref(out.value).cls is repo().script.Script
 
 
+class Acc(L.SymVal):
+    """a byte string of unknown content to which the loop body appends: only `+ x` is understood; the appended
+    parts are recorded in order"""
+    def __init__(self, base, parts=()):
+        self.base, self.parts = base, list(parts)
+
+    def sym_type(self):
+        return bytes
+
+    def sym_binop(self, ctx, op, other, reflected):
+        import ast as _ast
+        if isinstance(op, _ast.Add) and not reflected:
+            return Acc(self.base, self.parts + [L.simplify_native(other)])
+        raise Undecided("accumulator used other than by appending")
+
+    def __repr__(self):
+        return f"Acc({self.base}, {self.parts})"
+
+
+class SerializeStepLoop:
+    """one iteration of the command loop of raw_serialize, from ANY accumulated prefix, for a GENERIC command:
+       an integer o (0..255)             appends the byte o;
+       a data element of L bytes          appends push-prefix(L) (bare L / 4c L / 4d le16(L)) and then the element
+                                          itself, for 1 <= L <= 520; raises for L > 520
+    so raw_serialize(cmds) is the concatenation of the per-command encodings for lists of any length."""
+    name = "Script.raw_serialize.step"
+
+    def at_entry(self, ctx, frame, it):
+        return NS()
+
+    def invariant(self, ctx, frame, g):
+        return True
+
+    def havoc(self, ctx, frame, g):
+        k = ctx.loop_counter
+        g.base = f"result!{k}"
+        g.kind = None
+        ctx.ghost = getattr(ctx, "ghost", {})
+        ctx.ghost[self.name] = g
+        frame.env["result"] = Acc(g.base)
+        for v in ("cmd", "length"):
+            frame.env.pop(v, None)
+
+    def for_cond(self, ctx, frame, g):
+        return z3.Bool(f"has_next!{ctx.loop_counter}")
+
+    def for_element(self, ctx, frame, g):
+        if ctx.branch(z3.Bool(f"cmd_is_opcode!{ctx.loop_counter}")):
+            g.kind = "op"
+            g.cmd = z3.Int(f"opcode!{ctx.loop_counter}")
+        else:
+            g.kind = "data"
+            g.cmd = L.OBytes.sym(f"element!{ctx.loop_counter}")
+        return g.cmd
+
+    def for_advance(self, ctx, frame, g):
+        pass
+
+    def after_body(self, ctx, frame, g):
+        r = frame.env["result"]
+        ok = isinstance(r, Acc) and r.base == g.base
+        ctx.side_check("step.appends_to_the_accumulated_bytes", ok)
+        if not ok:
+            return
+        if g.kind == "op":
+            ctx.side_check("step.opcode.is_a_byte", land(g.cmd >= 0, g.cmd <= 255))
+            ctx.side_check("step.opcode.appends_its_byte", len(r.parts) == 1 and isinstance(r.parts[0], Rope) and eq(r.parts[0], seg(g.cmd, 1)))
+            return
+        Ln = g.cmd.len
+        ctx.side_check("step.data.at_most_520_bytes", Ln <= 520)
+        last_is_cmd = bool(r.parts) and r.parts[-1] is g.cmd
+        ctx.side_check("step.data.ends_with_the_element_itself", last_is_cmd)
+        hdr = Rope()
+        good = True
+        for x in r.parts[:-1]:
+            if isinstance(x, (Rope, bytes)):
+                hdr = hdr + as_rope(x)
+            else:
+                good = False
+        ctx.side_check("step.data.prefix_is_bytes", good)
+        if not good:
+            return
+        ctx.side_check("step.data.bare_length_prefix", implies(Ln <= 75, eq(hdr, seg(Ln, 1)) if len(hdr) == 1 else False))
+        ctx.side_check("step.data.pushdata1_prefix", implies(land(Ln >= 76, Ln <= 255), eq(hdr, Rope.of(b"\x4c") + seg(Ln, 1)) if len(hdr) == 2 else False))
+        ctx.side_check("step.data.pushdata2_prefix", implies(land(Ln >= 256, Ln <= 520), eq(hdr, Rope.of(b"\x4d") + seg(Ln, 2, True)) if len(hdr) == 3 else False))
+
+
+@contract
+class SerializeStep:
+    """C19: the step contract of raw_serialize (see SerializeStepLoop); also: an over-long element raises"""
+    target = "btc_hd_wallet.script.Script.raw_serialize"
+    props = ("C19",)
+    loops = {0: SerializeStepLoop()}
+
+    def inputs(self, B):
+        if B.concrete:
+            raise Undecided("generic-element step contract has no concrete replay (RawSerializeData_* replay per length)")
+        R = repo()
+        sc = B.obj(R.script.Script, cmds=B.list_sym("cmds"))
+        return [sc], {}, NS()
+
+    def post(self, c, I, out):
+        g = (getattr(c, "ghost", None) or {}).get(SerializeStepLoop.name)
+        if out.raised and g is not None and g.kind is not None:
+            # the only way the body may raise: an element longer than 520 bytes, or an integer that is not a byte
+            if g.kind == "data":
+                yield "raises.data_only_if_over_520", g.cmd.len > 520
+            else:
+                yield "raises.opcode_only_if_not_a_byte", lor(g.cmd < 0, g.cmd > 255)
+
+
+class ParseStepLoop(ParseLoop):
+    """one iteration of the command loop from an ARBITRARY loop state is the inverse of the standard element
+    encoding: with b = the byte at the current position p,
+       1 <= b <= 75  : appends the b bytes at p+1,                         advances by 1 + b
+       b == 76       : appends the S(p+1) bytes at p+2,                    advances by 2 + S(p+1)
+       b == 77       : appends the S(p+1) + 256*S(p+2) bytes at p+3,       advances by 3 + that
+       otherwise     : appends the integer b,                              advances by 1
+    (the decode table is written from the Script wire format, not from the code).  Together with the serializer
+    contracts (RawSerializeData_*: ser(data) = push-prefix(len) || data, opcode = its byte) and lemmas.l_c19 this
+    gives the list-level round trip for scripts of any number of elements."""
+    name = "Script.parse.step"
+
+    def havoc(self, ctx, frame, g):
+        super().havoc(ctx, frame, g)
+        g.p = g.s.pos
+        g.count0 = frame.env["count"]
+        g.cmds0 = frame.env["cmds"]
+
+    def after_body(self, ctx, frame, g):
+        S, p = g.s, g.p
+        b0 = S.byte_at(p)
+        lst = ctx.deref(frame.env["cmds"])
+        same_list = frame.env["cmds"] == g.cmds0 and lst.base == f"cmds!{ctx.loop_counter}"
+        one = same_list and len(lst.items) == 1
+        ctx.side_check("step.appends_exactly_one_command", one)
+        if not one:
+            return
+        item = L.simplify_native(lst.items[0])
+        is_chunk = isinstance(item, SymChunk) and item.stream is S
+        l1 = S.byte_at(p + 1)
+        l2 = S.byte_at(p + 1) + 256 * S.byte_at(p + 2)
+        cases = [(land(b0 >= 1, b0 <= 75), 1, b0), (b0 == 76, 2, l1), (b0 == 77, 3, l2)]
+        is_op = land(lnot(cases[0][0]), lnot(cases[1][0]), lnot(cases[2][0]))
+        for (cond, h, ln), nm in zip(cases, ("bare_length", "pushdata1", "pushdata2")):
+            ctx.side_check(f"step.{nm}.element_is_the_announced_bytes",
+                           implies(cond, land(eq(item.start, p + h), eq(item.length, ln)) if is_chunk else False))
+            ctx.side_check(f"step.{nm}.advances_by_encoding_length",
+                           implies(cond, land(eq(S.pos, p + h + ln), eq(frame.env["count"], g.count0 + h + ln))))
+        ctx.side_check("step.opcode.element_is_the_byte", implies(is_op, False if is_chunk else eq(item, b0)))
+        ctx.side_check("step.opcode.advances_by_one", implies(is_op, land(eq(S.pos, p + 1), eq(frame.env["count"], g.count0 + 1))))
+
+
+@contract
+class ParseStep(ParseTruncation):
+    """C19: the step contract of Script.parse (see ParseStepLoop)"""
+    loops = {0: ParseStepLoop()}
+
+    def post(self, c, I, out):
+        return
+        yield
+
+
 @contract
 class ParsePrefixes:
     """C19 (truncations of valid serialisations): every proper prefix of the serialisation of a script is refused"""
@@ -425,3 +588,23 @@ class _Builder:
 
 for _f in BUILDERS:
     CONTRACTS.append(type("Builder_" + _f, (_Builder,), dict(fname=_f))())
+
+
+class _WrongStepLoop(ParseStepLoop):
+    name = "Script.parse.step.canary"
+
+    def after_body(self, ctx, frame, g):
+        S, p = g.s, g.p
+        b0 = S.byte_at(p)
+        # must FAIL: claims byte 76 is a bare length
+        ctx.side_check("canary.step.byte76_is_bare_length", implies(b0 == 76, eq(S.pos, p + 1 + 76)))
+
+
+@canary
+class CanaryParseStep(ParseTruncation):
+    """must FAIL: a step specification that treats byte 76 as a bare length"""
+    loops = {0: _WrongStepLoop()}
+
+    def post(self, c, I, out):
+        return
+        yield
